@@ -141,10 +141,21 @@ def run(facts, tier):
     rec = {f["id"] for f in facts.fns.values() if f["path"].endswith("init_order_recursive")}
     if len(rec) < 6:
         raise BrokenCheck("C14-3: %d init_order_recursive functions (floor 6)" % len(rec))
+    # who appends at the end of the order vector: found by what it does (Vec::push on the field `order` of DocumentOrder), so
+    # the helper DocumentOrder::push may exist or be inlined into init_order
+    from facts import walk as _walk
+    appenders = sorted({g["path"] for g in facts.fns.values() if g["crate"] == "xml_info" and "body" in g and "::tests::" not in g["path"] and
+                        any(n.get("k") == "MethodCall" and n.get("m") == "push" and
+                            any(x.get("k") == "Field" and x.get("name") == "order" and "DocumentOrder" in str(x.get("basety", ""))
+                                for x in _walk(n.get("recv", {}))) for n in _walk(g["body"]))})
+    if not appenders:
+        raise BrokenCheck("C14-3: no function appends to DocumentOrder.order")
     pushers = e6.callers_of(facts, lambda n: n == "xml_info::DocumentOrder::push")
-    if [c["path"] for c, _ in pushers] != ["xml_info::HasContext::init_order"]:
-        res.add(Finding("C14-3", "push-callers", "DocumentOrder::push is called from %s (expected only HasContext::init_order)"
-                        % [c["path"] for c, _ in pushers], None, None, {}))
+    bad_app = [a for a in appenders if a not in ("xml_info::DocumentOrder::push", "xml_info::HasContext::init_order")]
+    bad_call = [c["path"] for c, _ in pushers if c["path"] != "xml_info::HasContext::init_order"]
+    if bad_app or bad_call:
+        res.add(Finding("C14-3", "push-callers", "the order vector is appended to by %s, DocumentOrder::push is called from %s (expected only "
+                        "HasContext::init_order)" % (appenders, [c["path"] for c, _ in pushers]), None, None, {}))
     io = e6.callers_of(facts, lambda n: n == "xml_info::HasContext::init_order")
     for c, e in io:
         if c["id"] not in rec:
@@ -156,7 +167,8 @@ def run(facts, tier):
             continue
         for e in es:
             if e["to"] in rec and e["kind"] in ("call", "cha", "fwd", "mention"):
-                outside.setdefault(facts.fns[fid]["path"], e)
+                # named after the function whose piece the caller is (set_values -> adopt_values keeps the key set_values)
+                outside.setdefault(facts.root_of(facts.fns[fid])["path"], e)
     for p, e in sorted(outside.items()):
         st3["instances"] += 1
         ok = p in allowed_roots
